@@ -15,13 +15,54 @@ pub fn zn(s: &[i128], i: usize) -> i128 {
 }
 
 /// Run `f` once per input line; panics escaping `f` are reported as the trace `-999`.
+/// Scripts started so far; bit 63 set while one is running. Read by the hang watchdog.
+static SCRIPT_SEQ: std::sync::atomic::AtomicU64 = std::sync::atomic::AtomicU64::new(0);
+
+/// A change to the code under test can make a script hang (a lost wake-up under the baton scheduler, a
+/// spin that never ends). The watchdog turns that into an answer: if one script has been running for
+/// VERIF_SCRIPT_TIMEOUT_S seconds of REAL time (default 30; counted in sleep ticks because the clock is
+/// virtual), it writes the trace `-997` for it and exits with status 97; bin/check then reports the
+/// script as hung and runs the remaining scripts in a fresh process.
+fn spawn_watchdog() {
+    let limit_ticks: u64 = std::env::var("VERIF_SCRIPT_TIMEOUT_S")
+        .ok()
+        .and_then(|s| s.parse::<u64>().ok())
+        .unwrap_or(30)
+        * 10;
+    std::thread::spawn(move || {
+        let mut last = 0u64;
+        let mut ticks = 0u64;
+        loop {
+            std::thread::sleep(std::time::Duration::from_millis(100));
+            let cur = SCRIPT_SEQ.load(Ordering::SeqCst);
+            if cur != last {
+                last = cur;
+                ticks = 0;
+            } else if cur >> 63 == 1 {
+                ticks += 1;
+                if ticks >= limit_ticks {
+                    let msg = b"-997\n";
+                    unsafe {
+                        libc::write(1, msg.as_ptr() as *const libc::c_void, msg.len());
+                        libc::_exit(97);
+                    }
+                }
+            }
+        }
+    });
+}
+
 pub fn main_loop<F: FnMut(&[i128]) -> Vec<i128>>(mut f: F) {
     std::panic::set_hook(Box::new(|_| {}));
+    spawn_watchdog();
     let stdin = std::io::stdin();
     let stdout = std::io::stdout();
     let mut out = std::io::BufWriter::new(stdout.lock());
+    let mut seq: u64 = 0;
     for line in stdin.lock().lines() {
         let line = line.unwrap();
+        seq += 1;
+        SCRIPT_SEQ.store(seq | (1 << 63), Ordering::SeqCst);
         let script: Script = line
             .split_whitespace()
             .map(|t| t.parse::<i128>().expect("bad integer"))
@@ -32,6 +73,9 @@ pub fn main_loop<F: FnMut(&[i128]) -> Vec<i128>>(mut f: F) {
         };
         let strs: Vec<String> = tr.iter().map(|x| x.to_string()).collect();
         writeln!(out, "{}", strs.join(" ")).unwrap();
+        // flushed per script so that the watchdog's `-997` lands right after the last finished trace
+        out.flush().unwrap();
+        SCRIPT_SEQ.store(seq, Ordering::SeqCst);
     }
     out.flush().unwrap();
 }
